@@ -23,9 +23,11 @@ VERIF = os.path.dirname(os.path.abspath(__file__))
 REPO = os.environ.get("VERIF_REPO", "/repo")
 LEAN = os.path.join(VERIF, "lean")
 HARN = os.path.join(VERIF, "harness")
-CACHE = os.path.join(VERIF, ".cache")
-EVID = os.path.join(VERIF, "evidence")
-REPLAYS = os.path.join(VERIF, "replays")
+# the three output locations can be redirected (used by seeded/run_against.py so that runs against a mutated copy of the
+# repository neither pollute the build cache nor overwrite the evidence of the real tree)
+CACHE = os.environ.get("VERIF_CACHE", os.path.join(VERIF, ".cache"))
+EVID = os.environ.get("VERIF_EVIDENCE_DIR", os.path.join(VERIF, "evidence"))
+REPLAYS = os.environ.get("VERIF_REPLAYS", os.path.join(VERIF, "replays"))
 DRIVER = os.path.join(LEAN, ".lake", "build", "bin", "driver")
 NCPU = min(16, os.cpu_count() or 4)
 ALLOWED_AXIOMS = {"propext", "Classical.choice", "Quot.sound"}
